@@ -58,6 +58,24 @@ def _observable(key):
 # signed-char / char / ctypes items are accepted by the unchanged library too (it reads octets with struct), but a refactor that indexes the view
 # (`view[0]`) instead is behaviour-preserving for every ordinary caller and is in the false-alarm corpus (harmless/asn1): those kinds are outside
 # the domain the checks judge (DESIGN.md, "buffer kinds"); `EXOTIC_KINDS` are only observed (C07 histogram)
+class _StrSub(str):
+    """a str subclass (legal wherever a str is): equal to and hashing like the plain string"""
+
+
+def as_name(name, salt=0):
+    """the same OID as another legal str object: the ExtendedOperations member with that value (a str-mixin enum), a str subclass instance,
+    or the plain str"""
+    if name is None:
+        return None
+    if salt % 3 == 0:
+        for m_ in sansldap.ExtendedOperations:
+            if m_.value == name:
+                return m_
+    if salt % 3 == 1:
+        return _StrSub(name)
+    return name
+
+
 INPUT_KINDS = ["bytes", "bytes", "bytearray", "memoryview", "bytes", "memoryview-bytearray", "bytes"]
 EXOTIC_KINDS = ["memoryview-signed", "memoryview-char", "memoryview-ctypes"]
 
@@ -268,7 +286,7 @@ class Impl:
             return s.search_request(C.untx(c["base"]), c["scope"], c["deref"], c["size"], c["time"], c["typesOnly"], f, attrs, ctrls)
         if k == "extended":
             if alt:
-                return s.extended_request(C.untx(c["name"]), **opt({"value": (C.ounhx(c.get("value")), None), "controls": (ctrls, [])}))
+                return s.extended_request(as_name(C.untx(c["name"]), self._bump_nm()), **opt({"value": (C.ounhx(c.get("value")), None), "controls": (ctrls, [])}))
             return s.extended_request(C.untx(c["name"]), C.ounhx(c.get("value")), ctrls)
         if k == "unbind":
             return s.unbind()
@@ -280,7 +298,7 @@ class Impl:
                                    C.untx(c["diag"]), ctrls)
         if k == "extendedResponse":
             if alt:
-                return s.extended_response(c["id"], **opt({"name": (C.ountx(c.get("name")), None), "value": (C.ounhx(c.get("value")), None),
+                return s.extended_response(c["id"], **opt({"name": (as_name(C.ountx(c.get("name")), self._bump_nm()), None), "value": (C.ounhx(c.get("value")), None),
                                                             "result_code": (sansldap.LDAPResultCode(c["code"]), sansldap.LDAPResultCode.SUCCESS),
                                                             "matched_dn": (C.untx(c["mdn"]), ""), "diagnostics_message": (C.untx(c["diag"]), ""),
                                                             "controls": (ctrls, [])}))
@@ -314,6 +332,10 @@ class Impl:
             if w == "auth":
                 return s.register_auth_credential(CT.CustomAuth)
         raise KeyError(k)
+
+    def _bump_nm(self):
+        self._nm = getattr(self, "_nm", 0) + 1
+        return self._nm
 
     def outcome(self, s, c):
         try:
